@@ -305,6 +305,14 @@ CHECK_DEADLOCK FALSE
             (d / "p.fj").write_bytes(raw)
             cases.append({"id": i, "src": str(d / "p.fj"), "out": str(d / "p.fjm"), "w": 64, "version": 3, "stl": False})
             meta[i] = ({"kind": "mutated", "site": "text", "w": 64, "version": 3}, raw.decode("latin-1"), [])
+        # valid but astronomically large programs: the padding / the repetitions are produced one by one
+        for site, raw in (("hugepad", b";code\ncode:\n;code\npad 1<<40\n;code\n"), ("hugerep", b"def m {\n;\n}\n;code\ncode:\nrep(1<<40, i) m\n;code\n")):
+            i = len(cases)
+            d = base / f"h{site}"
+            d.mkdir()
+            (d / "p.fj").write_bytes(raw)
+            cases.append({"id": i, "src": str(d / "p.fj"), "out": str(d / "p.fjm"), "w": 64, "version": 3, "stl": False, "risky": True})
+            meta[i] = ({"kind": "mutated", "site": site, "w": 64, "version": 3}, raw.decode("latin-1"), [])
         results = run_children(cases, base)
     finally:
         shutil.rmtree(base, ignore_errors=True)
